@@ -11,7 +11,8 @@ EXPLANATION = ("A relation between two runs is not statically decidable; decided
                "R13.1b in the trade replies the native arm raises SentFunds.required by exactly the multiset of amounts the cw20 arm "
                "pulls from the trader on the path with the same other conditions; R13.2 native terminal paths of those replies pass the "
                "exact-match check on the updated record, the check accepts equality only, SentFunds is created only by OpenPosition "
-               "with required = 0 and re-stored unchanged-asset by the reversal.")
+               "with required = 0 and re-stored unchanged-asset by the reversal."
+               " R13.6 every fee message of an Open/Close chain has a non-zero amount by a path fact; R13.5 (second kind) no step makes balance-sized payouts on paths that all forward attached fee coins in the same response.")
 NOT_DECIDED = "equality of the two runs' outcomes as such (a 2-run relation); bank vs cw20 failure modes (allowance, balance)."
 
 
